@@ -4,7 +4,7 @@
    (name, attributes) and the operand values; integer and float operations are covered uniformly. *)
 From Snax Require Import Base.Prelude Model.C20Phs Proofs.C20PhsProofs Proofs.C20DecodeProofs
   Proofs.C20SearchProofs Proofs.C20AppendProofs Proofs.C20HistoryProofs Proofs.C20WfProofs
-  Proofs.C20HistoryFullProofs.
+  Proofs.C20HistoryFullProofs Proofs.C20EncodeProofs.
 
 (* valid_mapping_sem: if valid_mapping accepts the mux assignment mu for the kernel graph g against the
    abstract graph G, then G — with its mux switches set as mu says and its choose switches selecting g's
@@ -86,6 +86,15 @@ Theorem C20_history_correct :
                  forall ins v swg, eval_pe opsem g swg ins = Some v -> eval_pe opsem G sw ins = Some v.
 Proof. exact history_correct. Qed.
 Print Assumptions C20_history_correct.
+
+(* encode_ok: whatever convert_generic_body_to_phs returns satisfies the hypotheses history_correct puts on a
+   kernel graph: concrete, distinct choose ids (get_id), well-formed switches; attribute-free if the body is *)
+Theorem C20_encode_ok :
+  forall b g, encode b = Some g ->
+    is_concrete g = true /\ nodup_ids (map nid (pnodes g)) = true /\ pe_wf g = true /\
+    (plain_body b = true -> plain_pe g = true).
+Proof. exact encode_ok. Qed.
+Print Assumptions C20_encode_ok.
 
 (* non-vacuity: two kernels with different routing and operations; the merged PE has a mux and a
    two-alternative choose op, decode succeeds with a non-trivial switch list and every hypothesis holds *)
